@@ -498,7 +498,7 @@ func run(c *xs.Ctx, r *xs.Result) {
 		}
 	}
 	if c.Replay != nil {
-		var sc storeCase
+		var sc StoreCase
 		if err := json.Unmarshal(c.Replay, &sc); err == nil && sc.Mode == "store" {
 			storeLevel(c, r, &sc)
 			return
